@@ -172,6 +172,14 @@ impl World {
         self.clients.insert(name.to_string(), c);
     }
 
+    /// A second device of the user `primary`: same Nostr identity, own storage, own key packages, own leaf.
+    pub fn add_client_sibling(&mut self, name: &str, primary: &str, backend: &str) {
+        let keys = self.clients[primary].keys.clone();
+        self.add_client(name, backend);
+        let c = self.clients.get_mut(name).unwrap();
+        c.keys = keys;
+    }
+
     pub fn user_of(&self, pk: &PublicKey) -> String {
         for (n, c) in &self.clients {
             if c.keys.public_key() == *pk {
@@ -1046,7 +1054,7 @@ impl World {
 
     /// Projection of client `c`'s view of group `g` to the abstract state (null-free JSON).
     pub fn project(&mut self, c: &str, g: &str) -> Value {
-        let none = json!({"st":"none","mls":"none","msgs":[],"proc":[],"snaps":[]});
+        let none = json!({"st":"none","mls":"none","msgs":[],"proc":[],"snaps":[],"prem":[],"padd":[],"nsu":false,"listed":false,"pwel":[]});
         let Some(gi) = self.groups.get(g) else { return none };
         let gid = gi.gid.clone();
         let chain = self.chain_of(c, g, None);
@@ -1098,6 +1106,25 @@ impl World {
                     None => { o.insert("mdata".into(), json!({"name":"?","desc":"?","admins":[],"nid":"?","relays":[]})); }
                 }
             }
+        }
+        // read-only views derived from the same state: pending member changes, rotation obligation, pending welcomes
+        {
+            let cl = &self.clients[c];
+            let st = cl.store.as_ref().unwrap();
+            let prem: Vec<PublicKey> = with_mdk!(st, m => m.pending_removed_members_pubkeys(&gid)).unwrap_or_default();
+            let padd: Vec<PublicKey> = with_mdk!(st, m => m.pending_added_members_pubkeys(&gid)).unwrap_or_default();
+            let prem_n: BTreeSet<String> = prem.iter().map(|p| self.user_of(p)).collect();
+            let padd_n: BTreeSet<String> = padd.iter().map(|p| self.user_of(p)).collect();
+            o.insert("prem".into(), json!(prem_n));
+            o.insert("padd".into(), json!(padd_n));
+            let nsu = with_mdk!(st, m => m.groups_needing_self_update(u64::MAX / 4)).map(|v| v.contains(&gid)).unwrap_or(false);
+            o.insert("nsu".into(), json!(nsu));
+            let listed = with_mdk!(st, m => m.get_groups()).map(|v| v.iter().any(|x| x.mls_group_id == gid)).unwrap_or(false);
+            o.insert("listed".into(), json!(listed));
+            let pw = with_mdk!(st, m => m.get_pending_welcomes(None)).unwrap_or_default();
+            let pwn: BTreeSet<String> = pw.iter().filter(|x| x.mls_group_id == gid)
+                .map(|x| self.welcomes.iter().find(|(_, wi)| wi.rumor.id == Some(x.id)).map(|(k, _)| k.clone()).unwrap_or("?".into())).collect();
+            o.insert("pwel".into(), json!(pwn));
         }
         // messages
         let cl = &self.clients[c];
